@@ -44,12 +44,24 @@ def templates(rnd):
                  ["implies", ["bin", "Eq", F("a0"), ["lit", 1]], [["expr", ["bin", "Eq", F("b"), ["lit", 5]]]]],
                  ["implies", ["bin", "Ne", F("a1"), ["lit", 0]], [["expr", ["bin", "Lt", F("b"), ["lit", 8]]]]]],
                 {"a0": [0, 1], "a1": [0, 1, 2, 3]}))
+    # T7: the chain again, but the constraint text mentions the last variable before the middle one (the groups must not
+    # depend on the order of first reference): given a = 0, b must be uniform although 63 of the 64 values of c need b = 3
+    out.append(("chain_ref_order", [("a", 1, False), ("b", 2, False), ("c", 6, False)],
+                [["solve_order", F("a"), F("b")], ["solve_order", F("b"), F("c")],
+                 ["implies", ["bin", "Ne", F("c"), ["lit", 0]], [["expr", ["bin", "Eq", F("b"), ["lit", 3]]]]],
+                 ["expr", ["bin", "Ge", F("b"), F("a")]]],
+                {"a": [0, 1], "b|a=0": [0, 1, 2, 3]}))
+    # T8: a vsc list as the later argument: a = v admits (v+1)^3 assignments of the list
+    out.append(("list_later", [("a", 2, False), {"name": "l", "kind": "list", "elem": {"kind": "scalar", "w": 2, "sg": False},
+                                                 "rand": True, "randsz": False, "size": 3}],
+                [["solve_order", F("a"), F("l")], ["foreach", ["l"], [["expr", ["bin", "Le", ["it"], F("a")]]]]],
+                {"a": [0, 1, 2, 3]}))
     return out
 
 
 def mk_scenario(t, ncalls):
     name, fields, stmts, feas = t
-    fs = [{"name": n, "kind": "scalar", "w": w, "sg": sg, "rand": True} for n, w, sg in fields]
+    fs = [f if isinstance(f, dict) else {"name": f[0], "kind": "scalar", "w": f[1], "sg": f[2], "rand": True} for f in fields]
     cls = {"name": "K0", "fields": fs, "blocks": [{"name": "c0", "stmts": stmts}], "pre_randomize": [], "post_randomize": []}
     ops = [{"op": "new", "var": "o", "cls": "K0"}, {"op": "seed", "var": "o", "seed": 1}]
     ops += [{"op": "randomize", "var": "o", "inline": None} for _ in range(ncalls)]
@@ -109,6 +121,7 @@ def run(ctx):
         ida = {names.index(n) for n in after}
         calls = [(op, r) for op, r in zip(sc["ops"], o["ops"]) if op["op"] == "randomize"]
         counts = {n: {} for n in sc["feasible"]}
+        conds = {n: (n.split("|")[0], n.split("|")[1].split("=")[0], int(n.split("=")[1])) for n in counts if "|" in n}
         for op, r in calls:
             evals += 1
             if r["outcome"] != "ok":
@@ -120,7 +133,13 @@ def run(ctx):
                                    {"scenario": sc["classes"], "observed": "swizzle order in the solver transcript"})
                 break
             for n in counts:
-                v = r["values"][names.index(n)]
+                if n in conds:
+                    fld, cf, cv = conds[n]
+                    if r["values"][names.index(cf)] != cv:
+                        continue
+                    v = r["values"][names.index(fld)]
+                else:
+                    v = r["values"][names.index(n)]
                 counts[n][v] = counts[n].get(v, 0) + 1
         # frequency support: every feasible value of a first-solved field appears, with a frequency within 6.1 sigma of uniform
         for n, c in counts.items():
@@ -131,12 +150,13 @@ def run(ctx):
             worst = max(abs(c.get(v, 0) - N * p) for v in feas)
             hist_out.append({"template": sc["template"], "field": n, "counts": {str(k): v for k, v in sorted(c.items())}, "n": N})
             extra = [v for v in c if v not in feas]
-            if extra or (N >= 300 and worst > 6.1 * sigma):
+            if extra or (N >= 100 and worst > 6.1 * sigma):
                 core.add_violation(ctx, "with solve_order the first-solved field %s is not uniform over its feasible values: counts %s "
                                         "(expected %.1f each, 6.1 sigma = %.1f)" % (n, sorted(c.items()), N * p, 6.1 * sigma),
                                    {"scenario": sc["classes"], "observed": {"counts": sorted(c.items()), "calls": N}})
     # constraints still hold / satisfiability unchanged: the C01/C02 oracle on the first calls of every template
-    short = [dict(s, ops=s["ops"][:8]) for s in scs[:len(templates(random.Random(0)))]]
+    short = [dict(s, ops=s["ops"][:8]) for s in scs[:len(templates(random.Random(0)))]
+             if all(f["kind"] == "scalar" for f in s["classes"][0]["fields"])]      # (lists: C04's oracle)
     results, crashed = solve_common.evaluate(ctx, short, "c20")
     for si, oi, code, res in results:
         evals += 1
@@ -150,7 +170,8 @@ def run(ctx):
     ctx.coverage.update({
         "evaluations": evals,
         "distinct_nontrivial": len({repr(s["classes"]) for s in scs}),
-        "rule": "six templates (implication, b <= a, narrowed range, signed first variable, chain a->b->c, list of first variables) "
+        "rule": "eight templates (implication, b <= a, narrowed range, signed first variable, chain a->b->c, list of first variables, "
+                "the chain with the last variable mentioned first - b judged given a = 0 -, a vsc list as the later argument) "
                 "with seeded parameters, each randomised %d times from a fixed RandState; per call: normal return, swizzle order "
                 "in the solver transcript (no slice of a first-solved field after a slice of a later one); per template: histogram "
                 "of the first-solved fields against the uniform distribution over their feasible values (6.1 sigma); plus the C01/C02 "
